@@ -49,7 +49,52 @@ def build_panel(pd, explicit_model=True):
     return p
 
 
+def build_bay(pd):
+    """a stiffener-less StiffPanelBay whose single skin panel is the panel description"""
+    from compmech.stiffpanelbay import StiffPanelBay
+    b = StiffPanelBay()
+    b.model = MODELS[pd["model"]]
+    b.a, b.b = float(fr(pd["a"])), float(fr(pd["b"]))
+    if pd["model"] in ("cpanel", "kpanel"):
+        b.r = float(fr(pd["r"]))
+    b.m, b.n = pd["m"], pd["n"]
+    for d in range(3):
+        for ax, axn in ((0, "x"), (1, "y")):
+            f = pd["fl"][d][ax]
+            for k, nm in enumerate(("1t", "1r", "2t", "2r")):
+                setattr(b, "%s%s%s" % (DOFS[d], nm, axn), float(fr(f[k])))
+    b.stack = [c01.angle(pl["dir"]) for pl in pd["stack"]]
+    b.plyts = [float(fr(pl["t"])) for pl in pd["stack"]]
+    b.laminaprops = [tuple(float(fr(x)) for x in pl["mat"]) for pl in pd["stack"]]
+    b.mu = float(fr(pd["mu"]))
+    b.add_panel(y1=0., y2=b.b, offset=float(fr(pd["off"])))
+    return b
+
+
+def observe_bay_aero(pd, req):
+    b = build_bay(pd)
+    q = req["q"]
+    b.flow = req.get("flow", "x")
+    if q == "kAmach":
+        b.Mach, b.rho_air, b.V, b.speed_sound = (float(fr(req[k])) for k in ("mach", "rho", "V", "ainf"))
+    elif q == "kA":
+        b.beta, b.gamma = float(fr(req["beta"])), float(fr(req["gamma"]))
+    else:
+        b.beta, b.aeromu = 1.0, float(fr(req["aeromu"]))
+    if req.get("k0first", True):
+        b.calc_k0(silent=True)
+    M = b.calc_cA(silent=True) if q == "cA" else b.calc_kA(silent=True)
+    A = M.toarray()
+    ok = True
+    if q == "cA":
+        ok = bool(np.all(A.real == 0.0))
+        A = A.imag
+    return [[dyadic(v) for v in row] for row in A], ok
+
+
 def observe(pd, req, fresh_model=True):
+    if req.get("via") == "bay":
+        return observe_bay_aero(pd, req)
     """run the request on a freshly defined real Panel; returns (dense matrix as dyadics, flags_ok)"""
     p = build_panel(pd, explicit_model=fresh_model)
     kw = {}
@@ -78,6 +123,10 @@ def observe(pd, req, fresh_model=True):
         elif q == "kA":
             p.flow = req["flow"]
             p.beta, p.gamma = float(fr(req["beta"])), float(fr(req["gamma"]))
+            M = p.calc_kA(silent=True, **kw)
+        elif q == "kAmach":
+            p.flow = req["flow"]
+            p.Mach, p.rho_air, p.V, p.speed_sound = (float(fr(req[k])) for k in ("mach", "rho", "V", "ainf"))
             M = p.calc_kA(silent=True, **kw)
         elif q == "cA":
             p.calc_cA(float(fr(req["aeromu"])), silent=True)
@@ -197,7 +246,8 @@ def observe_load(p, pd, req, kw):
 
 def jreq(r):
     out = dict(q=r["q"], size=r.get("size", 0), row0=r.get("row0", 0), col0=r.get("col0", 0))
-    for k in ("N", "flow", "beta", "gamma", "aeromu", "c", "pts", "NL", "forces", "forcesInc", "inc", "cores", "num", "extra", "table"):
+    for k in ("N", "flow", "beta", "gamma", "aeromu", "c", "pts", "NL", "forces", "forcesInc", "inc", "cores", "num", "extra", "table",
+              "mach", "root", "rho", "V", "ainf", "via", "k0first"):
         if k in r:
             out[k] = r[k]
     return out
@@ -270,6 +320,14 @@ def random_req(rng, pd, q):
         r["gamma"] = rat(Fraction(rng.randint(1, 16), 8) if pd["model"] == "cpanel" and r["flow"] == "x" else 0)
     if q == "cA":
         r["aeromu"] = rat(Fraction(rng.randint(1, 40), 8))
+    if q == "kAmach":
+        mach, root = rng.choice([(Fraction(5, 3), Fraction(4, 3)), (Fraction(5, 4), Fraction(3, 4)),
+                                 (Fraction(13, 5), Fraction(12, 5)), (Fraction(17, 8), Fraction(15, 8))])
+        r.update(flow=rng.choice("xy"), mach=rat(mach), root=rat(root), rho=rat(Fraction(rng.randint(1, 16), 8)),
+                 V=rat(Fraction(rng.randint(4, 40), 4)), ainf=rat(Fraction(rng.randint(4, 16), 4)))
+    if q in ("kA", "cA", "kAmach") and rng.random() < 0.35:
+        r["via"] = "bay"
+        r["k0first"] = rng.random() < 0.6
     a, b = fr(pd["a"]), fr(pd["b"])
     if q in ("uvw", "strain", "stress"):
         amp = rng.choice([1, 1, 8, 64])
@@ -323,6 +381,7 @@ INVS = {
     "kM": ["SymmetricOut", "ScaleDominatesOut", "TilesAddUp", "ProbesNonNegative", "MassPosDef", "RigidBody"],
     "kA": ["ScaleDominatesOut", "OnlyW", "AeroStructure"],
     "cA": ["SymmetricOut", "OnlyW"],
+    "kAmach": ["MachRootOk", "OnlyW", "ScaleDominatesOut"],
     "uvw": [], "strain": [], "stress": ["StrainEnergyNonNegative"], "fext": ["VirtualWork"], "static": [],
     "fint": ["AtRest", "ForceIsEnergyGradient"], "kT": ["AtRest", "TangentSymmetric", "TangentIsJacobian", "SymmetricOut"],
     "kGc": ["SymmetricOut", "OnlyW", "UniformStressReproducesConstant"],
@@ -344,6 +403,8 @@ def run_prop(prop, qs, tier, seed, build, nrand_quick=40, nrand_thorough=600, wh
         return rep.finish()
     pairs = [(v[1], v[2]) for v in printed_values(mc.out, "REQ")]
     pairs = [(pd, r) for pd, r in pairs if r["q"] in qs]
+    if set(qs) & {"kA", "cA", "kAmach"}:   # the lattice aerodynamic cases also through a stiffener-less bay
+        pairs += [(pd, dict(r, via="bay", k0first=(k % 2 == 0))) for k, (pd, r) in enumerate(pairs) if pd["model"] != "plate_w"]
     if "static" in qs:   # the lattice load cases are also solved
         pairs += [(pd, dict(r, q="static", inc=rat(1))) for pd, r in pairs if r["q"] == "fext" and fr(r["inc"]) == 1]
     if not pairs:
@@ -354,7 +415,7 @@ def run_prop(prop, qs, tier, seed, build, nrand_quick=40, nrand_thorough=600, wh
     eid = 0
     meta = {}
     models = ["plate", "plate", "cpanel", "cpanel", "plate_w", "kpanel"]
-    if set(qs) & {"kA", "cA"}:
+    if set(qs) & {"kA", "cA", "kAmach"}:
         models = ["plate", "cpanel", "plate_w"]
     if set(qs) & {"uvw", "strain", "stress", "fext", "static", "fint", "kT", "kGc"}:
         models = ["plate", "cpanel"]
@@ -364,13 +425,13 @@ def run_prop(prop, qs, tier, seed, build, nrand_quick=40, nrand_thorough=600, wh
         pd = random_pd(rng, models)
         q = rng.choice(qs)
         r = random_req(rng, pd, q)
-        if q == "kA":
+        if q in ("kA", "kAmach"):
             restrain_flow_edges(pd, r["flow"])
         if q in ("fint", "kT", "kGc"):
             pd["m"], pd["n"] = min(pd["m"], 3), min(pd["n"], 3)
             r = random_req(rng, pd, q)
             pd["Ncte"] = [rat(0)] * 3
-        if q in ("kA", "cA", "uvw", "strain", "stress", "fext", "static", "fint", "kT", "kGc"):
+        if q in ("kA", "cA", "kAmach", "uvw", "strain", "stress", "fext", "static", "fint", "kT", "kGc"):
             # these quantify over whole panels (no sub-interval variant of the kernels)
             pd["y1"], pd["y2"] = rat(0), pd["b"]
         rnd.append((pd, r))
